@@ -7,7 +7,7 @@ TIMED_OPS = ("c07.multi",)
 GEN_UNITS = ("Handlers", "Fs")
 GROUPS = ["C07", "C01"]
 BINS = True
-LOGGER = {"c07.multi": "none", "c07.sched": "stdout", "c07.pipe": "none", "c07.globid": "none", "c07.pause": "stdout"}
+LOGGER = {"c07.multi": "none", "c07.sched": "stdout", "c07.pipe": "none", "c07.grep": "none", "c07.globid": "none", "c07.pause": "stdout"}
 JOBS = 8
 BUDGET = {"quick": 14, "thorough": 200}
 SCHED_BUDGET = {"quick": 160, "thorough": 4000}
@@ -135,6 +135,12 @@ def gen_pipe(rng, budget, tier):
             n = rng.choice([1, 3, 8, 20]) if ll >= 5000 else rng.choice([1, 5, 40, 150])
             srcs.append(f"{n}x{ll}")
         yield f"c07.pipe {rng.choice([7, 100, 4096, 32768, 32768])} {';'.join(srcs)}"
+    # seeded round 6: the same through grep readers with a selective expression (the number a record carries is the line's
+    # number in the file, not its rank among the selected lines)
+    yield "c07.grep 4096 40x30;25x200 5"
+    for _ in range(max(6, budget // 4)):
+        srcs = [f"{rng.choice([5, 12, 40, 150])}x{rng.choice([10, 200, 5000])}" for _ in range(rng.choice([1, 2, 3]))]
+        yield f"c07.grep {rng.choice([100, 4096, 32768])} {';'.join(srcs)} {rng.choice([2, 5])}"
 
 
 GLOB_SPELLINGS = ["@R/logs/*/app.log", "@R/logs//*/app.log", "@R/./logs/*/app.log", "@R/logs/x/../*/app.log", "@R//logs/*/*.log",
@@ -170,6 +176,6 @@ def gen(rng, budget, tier):
 
 
 def batches(cases):
-    return [[c for c in cases if c.startswith("c07.sched")], [c for c in cases if c.startswith("c07.pipe")],
+    return [[c for c in cases if c.startswith("c07.sched")], [c for c in cases if c.startswith("c07.pipe") or c.startswith("c07.grep")],
             [c for c in cases if c.startswith("c07.globid")], [c for c in cases if c.startswith("c07.pause")],
             [c for c in cases if c.startswith("c07.multi")]]
